@@ -1239,6 +1239,10 @@ func (a *align) BuildBootstrap(frac float64) (boot Alignment) {
 
 	alength := a.Length()
 	n := int(frac * float64(alength))
+	if n < 0 {
+		// alignment without any sequence: Length() is -1
+		n = 0
+	}
 
 	boot = NewAlign(a.alphabet)
 	indices := make([]int, n)
